@@ -73,6 +73,12 @@ def roundtrip_fn(kind, k, strand, chunk):
         elif kind == "feat":
             o = _feat(ex, strand, par=par, q=Q)
             r = FeatureInterval.from_dict(o.to_dict(), par)
+        elif kind == "featnested":
+            # two blocks sharing their start (the second nested in / extending the first) after an ordinary block: the exported lists are the
+            # constructor's lists, whatever order the location object keeps its blocks in
+            ex = [ex[0], (ex[1][0], ex[1][1]), (ex[1][0], ex[1][1] + kw["x"])]
+            o = _feat(ex, strand, par=par, q=Q)
+            r = FeatureInterval.from_dict(o.to_dict(), par)
         elif kind == "gene":
             t1 = _tx(ex[:1], strand, par=par, q=Q, guid=101)
             t2 = _tx(ex, strand, par=par, guid=102)
@@ -107,6 +113,9 @@ def roundtrip_fn(kind, k, strand, chunk):
                 [f.name for f in o.cds.chunk_relative_frames] == [f.name for f in r.cds.chunk_relative_frames]
         elif kind == "cds":
             extra = [f.name for f in o.frames] == [f.name for f in r.frames] == list(d1["cds_frames"])
+        elif kind in ("feat", "featnested"):
+            extra = AND(DEQ(list(d1["interval_starts"]), [e[0] for e in ex]), DEQ(list(d1["interval_ends"]), [e[1] for e in ex]),
+                        DEQ([(b.start, b.end) for b in r.blocks], [(b.start, b.end) for b in o.blocks]))
         return AND(DEQ(d1, d2), o.start == r.start, o.end == r.end, type(o) is type(r), o.guid == r.guid,
                    DEQ(o.to_dict(), d1), extra)
 
@@ -375,6 +384,16 @@ def pickle_fn(parent_kind, with_variants=False):
             if par is not None:
                 ok = ok and str(back.genes[0].transcripts[0].get_spliced_sequence()) == str(coll.genes[0].transcripts[0].get_spliced_sequence())
                 ok = ok and back.to_dict(export_parent=True) == coll.to_dict(export_parent=True)
+                # importing an exported dictionary does not consume it: the same dictionary imports again to the same collection
+                import copy
+
+                d = coll.to_dict(export_parent=True)
+                snap = copy.deepcopy(d)
+                r1 = AnnotationCollection.from_dict(d)
+                ok = ok and d == snap
+                r2 = AnnotationCollection.from_dict(d)
+                ok = ok and r1.to_dict(export_parent=True) == snap and r2.to_dict(export_parent=True) == snap and r2.guid == coll.guid
+                ok = ok and str(r2.genes[0].transcripts[0].get_spliced_sequence()) == str(coll.genes[0].transcripts[0].get_spliced_sequence())
             # explicit bounds survive
             c2 = AnnotationCollection(genes=[GeneInterval([_tx(ex, PLUS)], gene_id="g2")], start=0, end=ex[1][1] + 5)
             b2 = pickle.loads(pickle.dumps(c2))
@@ -425,7 +444,7 @@ def schema_fn(with_variants=False):
 def obligations(tier):
     out = []
     quick = tier == "quick"
-    kinds = [("cds", 2), ("tx", 2), ("txcds", 2), ("txphase", 2), ("feat", 2), ("gene", 2), ("fcoll", 2), ("variant", 1), ("vcoll", 2), ("acoll", 2)]
+    kinds = [("cds", 2), ("tx", 2), ("txcds", 2), ("txphase", 2), ("feat", 2), ("featnested", 2), ("gene", 2), ("fcoll", 2), ("variant", 1), ("vcoll", 2), ("acoll", 2)]
     for kind, k in kinds:
         for strand in ((PLUS,) if quick and kind in ("variant", "vcoll", "gene", "fcoll", "acoll") else (PLUS, MINUS)):
             for chunk in ((False,) if quick and kind not in ("tx", "feat", "acoll") else (False, True)):
@@ -434,18 +453,22 @@ def obligations(tier):
                     params["w"] = int
                 if kind in ("txcds", "txphase"):
                     params["co"] = int
+                if kind == "featnested":
+                    params["x"] = int
 
                 def pre(k=k, chunk=chunk, kind=kind, **kw):
                     if not layout_pre(k, kw, min_len=1, min_gap=1):
                         return False
                     if kind in ("txcds", "txphase") and not (0 <= kw["co"] and kw["co"] < kw["l0"]):
                         return False
+                    if kind == "featnested" and not (1 <= kw["x"] and (not chunk or kw["x"] <= 3)):
+                        return False
                     if chunk:
                         end = kw["s0"] + sum(kw["l%d" % i] for i in range(k)) + sum(kw["g%d" % i] for i in range(1, k))
                         return kw["w"] >= 0 and kw["w"] <= kw["s0"] and end <= kw["w"] + 24
                     return True
 
-                ex = dict({"s0": 103, "w": 100, "co": 1}, **{"l%d" % i: 4 for i in range(k)}, **{"g%d" % i: 2 for i in range(1, k)})
+                ex = dict({"s0": 103, "w": 100, "co": 1, "x": 2}, **{"l%d" % i: 4 for i in range(k)}, **{"g%d" % i: 2 for i in range(1, k)})
                 ex = {kk: v for kk, v in ex.items() if kk in params}
                 out.append(Obl("roundtrip_%s_%s%s" % (kind, sname(strand), "_chunk" if chunk else ""), roundtrip_fn(kind, k, strand, chunk),
                                params, pre, budget=400, cost=(60 if chunk else 8) * (3 if kind in ("gene", "fcoll", "acoll", "vcoll") else 1),
